@@ -23,8 +23,10 @@ import (
 	"net"
 	"net/http"
 	"os"
+	"runtime"
 	"strconv"
 	"strings"
+	"sync"
 	"testing"
 	"time"
 
@@ -131,6 +133,9 @@ type c17Case struct {
 	TCP    *[][2]int  `json:"tcp"`
 	UDP    *[][2]int  `json:"udp"`
 	IsUDP  bool       `json:"isudp"`
+	Items  []c17Case  `json:"items"` // tcpseq: the hooked streams
+	Hist   [][2]int   `json:"hist"`  // tcpseq: (0,i) sniff stream i, (1,i) look at stream i's replay
+	Conc   bool       `json:"conc"`  // tcpseq: sniff all streams concurrently
 }
 
 func TestVerifC17(t *testing.T) {
@@ -150,6 +155,8 @@ func TestVerifC17(t *testing.T) {
 		switch c.K {
 		case "tcp":
 			c17TCP(c, res)
+		case "tcpseq":
+			c17TCPSeq(c, res)
 		case "udp":
 			c17UDP(c, res)
 		case "check":
@@ -203,7 +210,24 @@ func c17HostPart(h string) string {
 	return host
 }
 
-func c17TCP(c c17Case, res map[string]any) {
+// one hooked TCP stream: the scripted stream, the call, and what it handed back.  The replay slice is
+// kept exactly as Sniffer.TCP returned it (no copy): core/server writes it to the target only after it
+// has logged and dialled, so its contents must still be the client's bytes whenever it is looked at
+// later - in particular after other hooked streams have been sniffed.
+type c17TCPRun struct {
+	c      c17Case
+	sent   []byte
+	st     *c17Stream
+	addr0  string
+	addr   string
+	replay []byte // as returned
+	early  []byte // copy taken right after the call returned
+	err    error
+	p      bool
+	msg    string
+}
+
+func c17TCPStart(c c17Case) *c17TCPRun {
 	sent := vUnhex(c.Sent)
 	st := &c17Stream{dlFail: c.DlFail}
 	off := 0
@@ -215,11 +239,102 @@ func c17TCP(c c17Case, res map[string]any) {
 		panic("c17: events do not cover the stream")
 	}
 	addr0 := string(vUnhex(c.Addr))
-	addr := addr0
+	return &c17TCPRun{c: c, sent: sent, st: st, addr0: addr0, addr: addr0}
+}
+
+func (r *c17TCPRun) sniff(sn *Sniffer) {
+	r.p, r.msg = vCatch(func() { r.replay, r.err = sn.TCP(r.st, &r.addr) })
+	r.early = append([]byte(nil), r.replay...)
+}
+
+func c17TCP(c c17Case, res map[string]any) {
+	r := c17TCPStart(c)
+	r.sniff(&Sniffer{Timeout: time.Second})
+	r.judge(res)
+}
+
+// a history of several hooked streams on one Sniffer: Hist lists sniff (0,i) and look-at-the-replay
+// (1,i) events; streams never looked at are looked at when the history is over.  Conc: all streams are
+// sniffed by concurrent goroutines (each reads its own replay as soon as its call returns, while the
+// others are still sniffing - under -race this is where a write to a handed-back slice shows), then
+// every replay is looked at once more.
+func c17TCPSeq(c c17Case, res map[string]any) {
 	sn := &Sniffer{Timeout: time.Second}
-	var replay []byte
-	var err error
-	p, msg := vCatch(func() { replay, err = sn.TCP(st, &addr) })
+	runs := make([]*c17TCPRun, len(c.Items))
+	for i := range c.Items {
+		runs[i] = c17TCPStart(c.Items[i])
+	}
+	items := make([]map[string]any, len(runs))
+	sniffed := make([]bool, len(runs))
+	later := make([]int, len(runs)) // sniffs of other streams between this stream's sniff and its judgement
+	judge := func(i int) {
+		if items[i] != nil || !sniffed[i] {
+			return
+		}
+		items[i] = map[string]any{}
+		runs[i].judge(items[i])
+	}
+	if c.Conc {
+		var wg sync.WaitGroup
+		start := make(chan struct{})
+		for i := range runs {
+			wg.Add(1)
+			go func(r *c17TCPRun) {
+				defer wg.Done()
+				<-start
+				r.sniff(sn)
+				runtime.Gosched()
+				r.early = append(r.early[:0], r.replay...) // the consumer reading what it was handed
+			}(runs[i])
+			sniffed[i] = true
+			later[i] = len(runs) - 1
+		}
+		close(start)
+		wg.Wait()
+	} else {
+		for _, h := range c.Hist {
+			i := h[1]
+			if i < 0 || i >= len(runs) {
+				continue
+			}
+			if h[0] == 0 && !sniffed[i] {
+				runs[i].sniff(sn)
+				sniffed[i] = true
+				for j := range runs {
+					if j != i && sniffed[j] && items[j] == nil {
+						later[j]++
+					}
+				}
+			} else if h[0] == 1 {
+				judge(i)
+			}
+		}
+	}
+	for i := range runs {
+		if !sniffed[i] {
+			runs[i].sniff(sn)
+			sniffed[i] = true
+		}
+	}
+	for i := range runs {
+		judge(i)
+	}
+	res["items"] = items
+	ok, why := true, ""
+	for i, it := range items {
+		if it["ok"] != true && ok {
+			ok = false
+			why = "stream " + strconv.Itoa(i) + " of " + strconv.Itoa(len(items)) + " (replay looked at after " +
+				strconv.Itoa(later[i]) + " other hooked stream(s) were sniffed): " + it["why"].(string)
+		}
+	}
+	res["ok"] = ok
+	res["why"] = why
+}
+
+func (r *c17TCPRun) judge(res map[string]any) {
+	c, sent, st, addr0, addr, replay, err := r.c, r.sent, r.st, r.addr0, r.addr, r.replay, r.err
+	p, msg := r.p, r.msg
 	res["panic"] = p
 	if p {
 		res["ok"] = false
@@ -292,7 +407,11 @@ func c17TCP(c c17Case, res map[string]any) {
 		}
 	} else {
 		if !bytes.Equal(append(append([]byte(nil), replay...), rem...), sent) {
-			fail("replay ++ unread != sent")
+			if bytes.Equal(append(append([]byte(nil), r.early...), rem...), sent) {
+				fail("replay ++ unread != sent: the replay slice was written after Sniffer.TCP returned it")
+			} else {
+				fail("replay ++ unread != sent")
+			}
 		}
 		if addr != addr0 {
 			if splitErr != nil {
